@@ -24,6 +24,8 @@ structure ImplCase where
   peer : Bytes := []
   ops : Array ImplOp := #[]
   expects : List String := []
+  /-- the harness measured a read that allocated beyond the configured bound -/
+  memViol : Option String := none
 
 def hexDigit (n : Nat) : Char :=
   if n < 10 then Char.ofNat (48 + n) else Char.ofNat (87 + n)
@@ -529,10 +531,15 @@ def alias (ls : List String) (src dst : String) : List String :=
   ls.filterMap fun l =>
     if l.startsWith s!"mon {src} " then some (s!"mon {dst} " ++ (l.drop (5 + src.length)).toString) else none
 
+def monMem (c : ImplCase) : List String :=
+  match c.memViol with
+  | some v => [s!"mon C06 FAIL memory-bound-exceeded {v}"]
+  | none => []
+
 def all (c : ImplCase) : List String :=
   let m10 := monC10 c
   let m09 := monC09 c
-  monC07 c ++ monSpecAll c ++ monC03 c ++ m09 ++ m10 ++ monC11 c ++ monC12 c ++ monC13 c ++ monC14 c ++ monC01 c
+  monC07 c ++ monMem c ++ monSpecAll c ++ monC03 c ++ m09 ++ m10 ++ monC11 c ++ monC12 c ++ monC13 c ++ monC14 c ++ monC01 c
     ++ alias m10 "C10" "C19" ++ alias m09 "C09" "C19" ++ alias m10 "C10" "C01"
     ++ alias (monC13 c) "C13" "C10" ++ alias ((monC13 c).filter (·.contains "FAIL")) "C13" "C12"
     ++ alias ((monC07 c).filter fun l => l.startsWith "mon C07 FAIL") "C07" "C05"
